@@ -29,7 +29,7 @@ META = {
         ' Also (D2): Ref.__init__ sets has_value for every value other than None (decision table incl. the empty display string); the hs_ref action decides presence of the display token by token count.'
         " Also (D2): the reader's number token matches no <written number><start of a unit> (quantity split).  (D6) tag / column order is not built by walking a set expression."
         ' Also (D4): time literals denote exactly the time they spell (no float, fraction padded as text); number texts are not trimmed in exponent form.'
-        ' Round 9: (D7) the ZINC writer keeps no table of texts keyed by the value it writes (Python == is coarser than `same Haystack value`); (D3) an _unescape made of several whole-text passes is refused with a derived witness, also when a look-behind guards the pass; (D5) the document is cut into grids by GRID_SEP.split and by no second lexer over the raw text.'),
+        ' Round 9: (D7) the ZINC writer keeps no table of texts keyed by the value it writes (Python == is coarser than `same Haystack value`); (D3) an _unescape made of several whole-text passes is refused with a derived witness, also when a look-behind guards the pass; (D5) the document is cut into grids by GRID_SEP.split and by no second lexer over the raw text; dump() traverses its argument once per path.'),
     'rule_text': 'obligations = ladder rows, kinds x (inclusion + pairwise disjointness) x 2 versions, code-point classes, '
                  'exactness per kind, framing/assembly facts',
     'trusted_base': ['pyparsing Or = longest match with list-order ties; the regular abstraction of the reader can miss, '
